@@ -14,6 +14,11 @@ import IxpeVerif.Model.Ephemeris
 import IxpeVerif.Model.Additivity
 import IxpeVerif.Model.Sampler
 import IxpeVerif.Model.IrfName
+import IxpeVerif.Model.Calendar
+import IxpeVerif.Model.NdArray
+import IxpeVerif.Model.HistIO
+import IxpeVerif.Model.Columns
+import IxpeVerif.Gen.Specs
 /-! Dispatcher of the hand-written models for the line-protocol driver.  Integers travel in decimal. -/
 namespace Driver
 
@@ -265,6 +270,38 @@ def step (ws : List String) : String :=
     | .error .simpleType => "err simpleType"
     | .error .simpleIntent => "err simpleIntent"
     | .error .grayType => "err grayType"
+  -- C19 --------------------------------------------------------------------------------------------------------
+  -- date <met µs>  -> DATE-OBS string of that MET with the generated epoch constant
+  | ["date", us] => (Cal.metToStamp Gen.missionStartUnixTime us.toInt!).format
+  -- undate y m d h mi s us -> MET µs
+  | ["undate", y, m, d, h, mi, sec, us] =>
+    showInts [Cal.stampToMet Gen.missionStartUnixTime ⟨y.toInt!, m.toInt!, d.toInt!, h.toInt!, mi.toInt!, sec.toInt!, us.toInt!⟩]
+  -- hsave <ndim> shape… <n> bits…  -> image of `a.T`: shape… | bits…   (the primary / ENTRIES / SUMW2 HDU of `save`)
+  | "hsave" :: rest =>
+    let (sh, rest) := takeN rest
+    let (d, _) := takeN rest
+    let img := (Nd.ofFlat (sh.map String.toNat!) (ints d) 0).T.toImage
+    showInts (img.shape.map Int.ofNat) ++ " | " ++ showInts img.data
+  -- hload <ndim> shape… <n> bits… <sq> -> array `data.T` read back (sq = 1: through sqrt and square, as sumw2 is)
+  | "hload" :: rest =>
+    let (sh, rest) := takeN rest
+    let (d, rest) := takeN rest
+    let a := (Nd.Image.toArr ⟨sh.map String.toNat!, ints d⟩ 0).T
+    let vals := if rest == ["1"] then a.flat.map fun b => let e := Float.sqrt (fbits b); Int.ofNat (e * e).toBits.toNat else a.flat
+    showInts (a.shape.map Int.ofNat) ++ " | " ++ showInts vals
+  -- r32 bits… -> the same doubles after a float32 round trip
+  | "r32" :: rest => showInts ((ints rest).map fun b => Int.ofNat (fbits b).toFloat32.toFloat.toBits.toNat)
+  | "castj" :: rest => showInts ((ints rest).map Cols.castJ)
+  | "casti" :: rest => showInts ((ints rest).map Cols.castI)
+  -- cards <class name> -> TTYPE,TFORM,TUNIT;… predicted from the generated DATA_SPECS through the model of the constructor
+  | ["cards", cls] =>
+    match Gen.specTables.find? (fun t => t.1 == codesOf cls) with
+    | none => "unknown-class"
+    | some t =>
+      ";".intercalate (t.2.2.map fun it => match Cols.columnOf it with
+        | none => "bad-item"
+        | some c => let k := Cols.cards c
+            strOf k.1 ++ "," ++ (match k.2.1 with | some f => strOf f | none => "None") ++ "," ++ (match k.2.2 with | some u => strOf u | none => "None"))
   | ["pikey", pi] => showInts [piKey pi.toInt!]
   | ["split", t] => let r := EvL.splitTime t.toInt!; showInts [r.1, r.2]
   | _ => "bad-op"
